@@ -66,6 +66,8 @@ class Header12:
         h[("call", "core::slice::<impl [T]>::get")] = get
         h[("call", "std::option::Option::<T>::ok_or")] = ok_or
         h[("call", "<T as std::convert::TryInto<U>>::try_into")] = try_into
+        h[("call", "std::array::<impl std::convert::TryFrom<&[T]> for [T; N]>::try_from")] = try_into
+        h[("call", "std::array::<impl std::convert::TryFrom<&'a [T]> for [T; N]>::try_from")] = try_into
         h[("call", "core::num::<impl u16>::from_be_bytes")] = from_be
         h[("call", "core::slice::<impl [T]>::len")] = lambda vals: self.length
         # bitflags (trusted library): a PacketFlag is its u16 bits
